@@ -219,6 +219,12 @@ class Ev:
             P.acc.append(("swapcells", (args[0].row, args[0].col), (args[1].row, args[1].col), t["span"]["lo"])); return [(P, Tup([]))]
         if name in ("deref", "deref_mut", "as_slice", "as_mut_slice", "as_ref", "as_mut", "borrow") and isinstance(a0, Slice): return [(P, a0)]
         if path.startswith("alloc::vec::Vec::<T, A>::len") and isinstance(a0, Slice): return [(P, a0.len())]
+        if path.startswith("alloc::vec::Vec::<T, A>::capacity") and isinstance(a0, Slice):
+            # the capacity is some number not below the length - and says nothing about which cells are initialised
+            P.conds.append(Cond(">=", Poly.atom("capacity") - a0.len()))
+            return [(P, Poly.atom("capacity"))]
+        if name == "new" and "RangeInclusive" in path and len(args) == 2 and all(isinstance(x, Poly) for x in args):
+            return [(P, Adt("core::ops::Range", "Range", [args[0], args[1] + ONE]))]        # a..=b is a..b+1
         if path.startswith("core::slice::<impl [T]>::") or (isinstance(a0, Slice) and name in ("get_unchecked", "get_unchecked_mut", "index", "index_mut", "len")):
             sl = a0
             if not isinstance(sl, Slice): raise Inconclusive("%s on %r" % (name, sl))
